@@ -16,5 +16,12 @@ def handle (fields : List String) : Option String :=
   | ["dedup", items] =>
     let its := if items == "" then [] else (items.splitOn ";").map item
     some (" ".intercalate ((kept its).map toString))
+  | ["selalias", inf, exp, fresh] =>
+    -- a name is `-` (absent) or `n:` followed by dot-separated code points
+    let nm (x : String) : Option Ident := if x == "-" then none else some (ident (x.drop 2).toString)
+    let show_ (x : Option Ident) : String := match x with
+      | none => "-"
+      | some i => "n:" ++ ".".intercalate (i.map fun c => toString c.toNat)
+    some (show_ (aliasOf (nm inf) (nm exp) (ident (fresh.drop 2).toString)) ++ " " ++ show_ (resultName (nm inf) (nm exp) (ident (fresh.drop 2).toString)))
   | _ => none
 end Drv.Projection
